@@ -1,6 +1,9 @@
 use std::any::Any;
 use std::fmt;
+#[cfg(not(may_verif))]
 use std::sync::atomic::{AtomicBool, Ordering};
+#[cfg(may_verif)]
+use crate::verif::atomic::{AtomicBool, Ordering};
 use std::sync::Arc;
 use std::thread::Result;
 
